@@ -120,6 +120,20 @@ class C04(Prop):
             acc.violation("nondeterministic", f"two calls differ ({tag})", {"p": hexstr[:200], "r1": r1[-8:], "r2": r2[-8:]})
         for mech, detail in self.rec.drain():
             acc.violation(mech, f"postcondition failed ({tag})", detail)
+        # the same bytes in the other spellings, right after: the result may not depend on what was signed before
+        for other in (hexstr.upper(), hexstr.lower(), hexstr.swapcase()):
+            if other == hexstr:
+                continue
+            acc.ev()
+            acc.count("respelled_after_first_spelling")
+            try:
+                r3 = sign(other)
+            except Exception as exc:
+                acc.violation("valid-hex-raised", f"{type(exc).__name__} on respelled valid hex ({tag})", {"p": other[:200]})
+                continue
+            for mech, detail in self.rec.drain():
+                acc.violation(mech + ":after-other-spelling", f"postcondition failed for a second spelling of bytes already signed ({tag})",
+                              {"first": hexstr[:120], "second": other[:120], "detail": detail})
 
     def run_case(self, case, acc, ctx):
         kind = case["kind"]
